@@ -188,7 +188,7 @@ func (v *Value) Swap(new any) (old any) {
 func (v *Value) CompareAndSwap(old, new any) (swapped bool) {
 	v.checkNew("compare and swap", new)
 
-	if !(v.v == nil && old == nil) && !sameType(old, new) {
+	if old != nil && !sameType(old, new) {
 		panic("sync/atomic: compare and swap of inconsistently typed values into Value")
 	}
 
